@@ -56,3 +56,35 @@ class Frame:
             if not same:
                 return "%s was modified" % name
         return None
+
+
+# ---------------------------------------------------------------- counter-models -> native values (replay functions)
+def num(v, default=0.0):
+    """a value of a counter-model as recorded in the replay file -> python number (complex only if it has an imaginary part entry)"""
+    from fractions import Fraction
+    if v is None:
+        return default
+    if isinstance(v, dict) and "re" in v:
+        return complex(float(num(v["re"])), float(num(v["im"])))
+    if isinstance(v, bool):
+        return v
+    if isinstance(v, (int, float, complex, Fraction)):
+        return v if not isinstance(v, Fraction) else float(v)
+    if isinstance(v, str):
+        try:
+            return float(Fraction(v))
+        except Exception:
+            try:
+                return float(v.rstrip("?"))
+            except Exception:
+                return default
+    return default
+
+
+def arr(v, dtype=complex):
+    """nested lists of model values -> ndarray"""
+    def conv(x):
+        if isinstance(x, (list, tuple)):
+            return [conv(y) for y in x]
+        return num(x)
+    return np.array(conv(v), dtype=dtype)
